@@ -516,3 +516,15 @@ def c06_range_operand_reused_later(w, v):
     the cells of the bounding rectangle outside the operands are blank."""
     return v['sig'] == 'pair:leaf-of-range-operator:leaf-last' and \
         bool(w.get('shared_leaf_is_operand_of_range_operator'))
+
+
+@matcher('c08_circular_placeholder_in_pipe')
+def c08_circular_placeholder_in_pipe(w, v):
+    """A function compiled from a model finished with circular=True replays a
+    fixed pipe: an output that carries the #CIRC! placeholder as its default
+    (initial distance inf) keeps the placeholder where the interpreter resolves
+    the cell.  Outputs frozen to a computed value are another mechanism and
+    are not covered."""
+    return v['sig'].startswith('circular:differs:#CIRC!->') and \
+        str(w.get('output_default_in_function', '')).startswith('circular placeholder')
+
